@@ -18,7 +18,6 @@ import GocoinV.Gen.QdbFacts
 namespace GocoinV.Props.C19
 open GocoinV GocoinV.Qdb GocoinV.QdbSpec GocoinV.Proofs.C19
 
-variable {eg : Bool}
 
 /-- The constants and guard shapes the hand-written model uses are the ones that stand in the source RIGHT
     NOW (Gen/QdbFacts.lean is regenerated from lib/others/qdb on every run): flag bits, default options,
@@ -39,31 +38,29 @@ theorem model_matches_source_facts :
     fails (no os.Exit, no panic) and its content — keys, values and browsing flags — is exactly what the same
     sequence produces on the in-memory map `QdbSpec.mstep`; Get, Browse and Count after the sequence return
     what the map returns. (The file system never influences an observation in this sub-language.) -/
-theorem qdb_refines_map_partial (db : DB) (ops : List Op) (h : Cached db) (ok : ∀ op ∈ ops, OpOK eg op) :
+theorem qdb_refines_map_partial (db : DB) (ops : List Op) (he : db.eager = false) (h : Cached db)
+    (ok : ∀ op ∈ ops, OpOK false op) :
     (run db ops).failed = none ∧
     absv (run db ops) = mrun (absv db) ops ∧
     (∀ k, (Qdb.get (run db ops) k).2 = mget (mrun (absv db) ops) k) ∧
-    (∀ w, WalkOK eg w → (browse (run db ops) w).2 = mbrowseOut (mrun (absv db) ops)) ∧
+    (∀ w, WalkOK false w → (browse (run db ops) w).2 = mbrowseOut (mrun (absv db) ops)) ∧
     count (run db ops) = mcount (mrun (absv db) ops) := by
-  obtain ⟨hc, ha⟩ := run_cached ops db h ok
+  have ok' : ∀ op ∈ ops, OpOK db.eager op := by rw [he]; exact ok
+  obtain ⟨hc, ha⟩ := run_cached ops db h ok'
+  have hre : (run db ops).eager = false := (run_eager ops db h ok').trans he
   refine ⟨hc.1, ha, ?_, ?_, ?_⟩
   · intro k; rw [← ha]; exact (get_cached _ k hc).2.2
-  · intro w hw; rw [← ha]; exact (browse_cached _ w hc hw).2.2
+  · intro w hw; rw [← ha]; exact (browse_cached _ w hc (by rw [hre]; exact hw)).2.2
   · rw [← ha]; simp [count, mcount, absv]
 
--- OPEN: qdb_refines_map — the same statement for ALL operation sequences, i.e. including the NO_CACHE flag (PutExt /
---   ApplyFlags / walk results with NO_CACHE: `freerec` and sync() drop the record's data, `loadrec` reads it back, and
---   `load` skips such records). The flag is persisted in the index files, so a store that uses it cannot be twinned
---   with one that does not without relating the two directories byte-wise (same files up to that bit in every
---   record's flags field); that relation is not developed. Everything else of the op language is covered below at the
---   level of values: `Op.reopen` in both modes, LoadData = false (qdb_lazy_history_partial), crashes
---   (qdb_durable_partial); the flag part of the abstract state across a reopen is "whatever was persisted"
---   (browse_after_history_partial). NO_CACHE is covered by the correspondence run only.
+-- (qdb_refines_map_partial speaks about keys, values AND flags as a list, for histories without reopen of stores that do
+--   not use NO_CACHE. The statement for ALL operation sequences — NO_CACHE flags, lazy loading, reopens in both modes,
+--   crashes — is `qdb_refines_map` below, at the level of what Get / Browse / Count return.)
 
 /-- non-vacuity: a fresh store on an empty directory is cached, and a sequence with forced sync (MaxPending 0),
     overwrite, delete, NO_BROWSE flag, forced defrag is in the sub-language -/
 example : Cached (openDB {} false true { maxPending := 0 }) ∧
-    (∀ op ∈ [Op.put 1 [1, 2], .putExt 2 [3] NO_BROWSE, .put 1 [], .del 2, .defrag true, .sync, .get 1], OpOK eg op) := by
+    (∀ op ∈ [Op.put 1 [1, 2], .putExt 2 [3] NO_BROWSE, .put 1 [], .del 2, .defrag true, .sync, .get 1], OpOK false op) := by
   constructor
   · exact ⟨by decide, by intro kr hkr; cases hkr⟩
   · intro op hop
@@ -118,7 +115,7 @@ theorem writedatfile_writes_complete_snapshot (db : DB) :
     The proof goes through the real file contents: data file layout written through bufio, index snapshot
     with trailer, removal of log / old snapshot / old data files, `loadneweridx`, `loaddat`, `loadlog`,
     `cleanupold` and `load`. -/
-theorem reopen_after_close_identity_partial (db : DB) (h : Cached db) (hwf : IndexWF eg db.index)
+theorem reopen_after_close_identity_partial (db : DB) (h : Cached db) (hwf : IndexWF db.eager db.index)
     (vol : Bool) (opts : Opts) :
     (db.volatile = false →
       (run db [.defrag true, .reopen vol true opts]).failed = none ∧
@@ -138,15 +135,17 @@ theorem reopen_after_close_identity_partial (db : DB) (h : Cached db) (hwf : Ind
     show (step (step db (.defrag true)) (.reopen vol true opts)).failed = none ∧
       absv (step (step db (.defrag true)) (.reopen vol true opts)) = absv db
     rw [hd]
+    have heq : (close (defrag db)).eager = db.eager :=
+      (close_eager (defrag db) (defrag_cached db h).cached).trans (defrag_cached db h).eager
     show (match (close (defrag db)).failed with
       | some _ => close (defrag db)
-      | none => { openDB (close (defrag db)).fs vol true opts with
-                  effs := (close (defrag db)).effs ++ (openDB (close (defrag db)).fs vol true opts).effs }).failed = none ∧
+      | none => { openDB (close (defrag db)).fs vol true opts (close (defrag db)).eager with
+                  effs := (close (defrag db)).effs ++ (openDB (close (defrag db)).fs vol true opts (close (defrag db)).eager).effs }).failed = none ∧
       absv (match (close (defrag db)).failed with
       | some _ => close (defrag db)
-      | none => { openDB (close (defrag db)).fs vol true opts with
-                  effs := (close (defrag db)).effs ++ (openDB (close (defrag db)).fs vol true opts).effs }) = absv db
-    rw [c1, c2]
+      | none => { openDB (close (defrag db)).fs vol true opts (close (defrag db)).eager with
+                  effs := (close (defrag db)).effs ++ (openDB (close (defrag db)).fs vol true opts (close (defrag db)).eager).effs }) = absv db
+    rw [c1, c2, heq]
     exact ⟨o2, o3⟩
   · intro hv hn
     have hk := defrag_cached db h
@@ -157,13 +156,13 @@ theorem reopen_after_close_identity_partial (db : DB) (h : Cached db) (hwf : Ind
       exact ⟨trivial, trivial⟩
     show (match (close db).failed with
       | some _ => close db
-      | none => { openDB (close db).fs vol true opts with
-                  effs := (close db).effs ++ (openDB (close db).fs vol true opts).effs }).failed = none ∧
+      | none => { openDB (close db).fs vol true opts (close db).eager with
+                  effs := (close db).effs ++ (openDB (close db).fs vol true opts (close db).eager).effs }).failed = none ∧
       absv (match (close db).failed with
       | some _ => close db
-      | none => { openDB (close db).fs vol true opts with
-                  effs := (close db).effs ++ (openDB (close db).fs vol true opts).effs }) = absv db
-    rw [hc.1, hc.2]
+      | none => { openDB (close db).fs vol true opts (close db).eager with
+                  effs := (close db).effs ++ (openDB (close db).fs vol true opts (close db).eager).effs }) = absv db
+    rw [hc.1, hc.2, close_eager db h]
     exact ⟨o2, o3⟩
 
 /-- Refinement at the level of values, for EVERY history of the extended sub-language. Start on an empty directory
@@ -179,12 +178,12 @@ theorem reopen_after_close_identity_partial (db : DB) (h : Cached db) (hwf : Ind
     only grow", and "the other index slot is not a valid snapshot / holds the previous one; nothing on disk refers
     to a data-file number above the current one". -/
 theorem qdb_refines_map_values_partial (load : Bool) (opts : Opts) (ops : List Op)
-    (ok : ∀ op ∈ ops, OpOK2 eg op) (fits : RunFits2 (openDB {} false load opts) ops) :
+    (ok : ∀ op ∈ ops, OpOK2 false op) (fits : RunFits2 (openDB {} false load opts) ops) :
     (run (openDB {} false load opts) ops).failed = none ∧
     (∀ k, (Qdb.get (run (openDB {} false load opts) ops) k).2 = vrun (fun _ => none) ops k) ∧
     (∀ k, mget (mrun [] ops) k = vrun (fun _ => none) ops k) ∧
     count (run (openDB {} false load opts) ops) = mcount (mrun [] ops) := by
-  obtain ⟨h3, hv⟩ := run_inv3' ops _ (fresh_inv3 load opts) ok fits
+  obtain ⟨h3, hv⟩ := run_inv3' ops _ (fresh_inv3 (eg := false) load opts) (ok2_fresh load opts ops ok) fits
   have hv0 : vals (openDB {} false load opts) = fun _ => none := by
     funext k; cases load <;> rfl
   rw [hv0] at hv
@@ -209,12 +208,12 @@ theorem qdb_refines_map_values_partial (load : Bool) (opts : Opts) (ops : List O
 /-- Reopen identity, every history (snapshot AND log path): after any history as above, Close + NewDBExt
     (non-volatile, LoadData, any options) leaves every key with exactly the value it had. -/
 theorem reopen_after_close_identity_nonvolatile_partial (load : Bool) (opts : Opts) (ops : List Op)
-    (ok : ∀ op ∈ ops, OpOK2 eg op) (fits : RunFits2 (openDB {} false load opts) ops) (opts' : Opts)
+    (ok : ∀ op ∈ ops, OpOK2 false op) (fits : RunFits2 (openDB {} false load opts) ops) (opts' : Opts)
     (hfit : OpFits2 (run (openDB {} false load opts) ops) (.reopen false true opts')) :
     (step (run (openDB {} false load opts) ops) (.reopen false true opts')).failed = none ∧
     ∀ k, vals (step (run (openDB {} false load opts) ops) (.reopen false true opts')) k =
          vals (run (openDB {} false load opts) ops) k := by
-  obtain ⟨h3, _⟩ := run_inv3' ops _ (fresh_inv3 load opts) ok fits
+  obtain ⟨h3, _⟩ := run_inv3' ops _ (fresh_inv3 (eg := false) load opts) (ok2_fresh load opts ops ok) fits
   obtain ⟨a, b⟩ := reopen_inv3 _ h3 opts' hfit.1 hfit.2
   exact ⟨a.inv.cached.1, b⟩
 
@@ -223,7 +222,7 @@ theorem reopen_after_close_identity_nonvolatile_partial (load : Bool) (opts : Op
 example :
     let ops := [Op.put 1 [1, 2], .put 2 [], .put 1 [9], .del 2, .defrag true, .reopen false true {},
                 .putExt 3 [7] NO_BROWSE, .sync, .reopen false true { maxPending := 0 }, .put 2 [4]]
-    (∀ op ∈ ops, OpOK2 eg op) ∧ RunFits2 (openDB {} false true { maxPending := 0 }) ops := by
+    (∀ op ∈ ops, OpOK2 false op) ∧ RunFits2 (openDB {} false true { maxPending := 0 }) ops := by
   refine ⟨?_, ?_⟩
   · intro op hop
     simp only [List.mem_cons, List.not_mem_nil, or_false] at hop
@@ -231,11 +230,8 @@ example :
   · simp only [RunFits2, OpFits2, OpFits, SizeOK]
     decide
 
--- OPEN: qdb_refines_map / reopen_after_close_identity in full: the NO_CACHE flag (see above) — correspondence run
---   only. Proved since the first pass: Browse after a reopen (browse_after_history_partial), volatile stores across
---   any number of reopens and mixed-mode histories (qdb_durable_partial: its items (1)-(2) are the refinement
---   statement for Get / Count, for histories that may also contain crashes), LoadData = false in non-volatile mode
---   for every history (qdb_lazy_history_partial).
+-- (The full statements are `qdb_refines_map` and `qdb_durable` below; the `_partial` theorems are kept because they
+--   state more about special cases: flags as part of the abstract state, explicit effect lists of sync()/defrag().)
 
 /-- Durability across a crash anywhere inside sync() / Close. Take any reachable state of a non-volatile store
     (empty directory, any cached-sub-language history, side conditions as above) with pending changes. sync()
@@ -249,7 +245,7 @@ example :
         the in-memory map (all pending changes became durable together);
     (c) the directory after the last operation is the one the model continues with. -/
 theorem qdb_durable_sync_partial (load : Bool) (opts : Opts) (ops : List Op)
-    (ok : ∀ op ∈ ops, OpOK2 eg op) (fits : RunFits2 (openDB {} false load opts) ops)
+    (ok : ∀ op ∈ ops, OpOK2 false op) (fits : RunFits2 (openDB {} false load opts) ops)
     (hsz : SizeOK (run (openDB {} false load opts) ops))
     (hp : (run (openDB {} false load opts) ops).pending.isEmpty = false) (vol' : Bool) (opts' : Opts) :
     let db := run (openDB {} false load opts) ops
@@ -263,22 +259,28 @@ theorem qdb_durable_sync_partial (load : Bool) (opts : Opts) (ops : List Op)
     (∃ L, sync db = (if L.extra > L.opts.forcedPerc * L.need / 100 then defrag L else L) ∧
       L.fs = db.fs.applyAll (syncEffs db)) := by
   intro db
-  obtain ⟨h3, hv⟩ := run_inv3' ops _ (fresh_inv3 load opts) ok fits
+  obtain ⟨h3, hv⟩ := run_inv3' ops _ (fresh_inv3 (eg := false) load opts) (ok2_fresh load opts ops ok) fits
   have hv0 : vals (openDB {} false load opts) = fun _ => none := by
     funext k; cases load <;> rfl
   rw [hv0] at hv
   have inv : DiskInv db := h3.inv
-  have hR0 : DirReadable eg db.fs := fun kr hkr => ⟨inv.dflags kr hkr, inv.dreads kr hkr⟩
+  have hdbe : db.eager = false :=
+    (run_eager2 ops _ (fresh_inv3 (eg := false) load opts) (ok2_fresh load opts ops ok) fits).trans (fresh_eager load opts)
+  have hR0 : DirReadable false db.fs := fun kr hkr => ⟨by have := inv.dflags kr hkr; rw [hdbe] at this; exact this, inv.dreads kr hkr⟩
   obtain ⟨_, hold⟩ := open_readable db.fs hR0 vol' opts'
-  obtain ⟨L, hL, invL, absL, pL, _, _, _, hfsL, _⟩ := sync_logWritten db inv hp hsz.1
+  obtain ⟨L, hL, h3L, absL, pL, _, hfsL, _, _, hLe0⟩ := sync_logWritten3 db h3 hp hsz
+  have invL := h3L.inv
   refine ⟨?_, ?_, L, hL, hfsL⟩
   · intro n hn
     obtain ⟨hR, hV⟩ := sync_prefix db inv n hn
+    rw [hdbe] at hR
     obtain ⟨o1, o2⟩ := open_readable _ hR vol' opts'
     refine ⟨o1, fun k => ?_⟩
     rw [o2 k, hV k, ← hold k]
   · rw [← hfsL]
+    have hLe : L.eager = false := hLe0.trans hdbe
     obtain ⟨o1, o2⟩ := open_of_inv L invL pL vol' opts'
+    rw [hLe] at o1 o2
     refine ⟨o1, fun k => ?_⟩
     rw [o2 k, ← vals_eq, ← hv k]
     unfold vals
@@ -290,7 +292,7 @@ theorem qdb_durable_sync_partial (load : Bool) (opts : Opts) (ops : List Op)
 example :
     let ops := [Op.put 1 [1, 2], .put 2 [5], .sync, .reopen false true {}, .put 3 [], .put 1 [9, 9, 9], .del 2]
     let db := run (openDB {} false true {}) ops
-    (∀ op ∈ ops, OpOK2 eg op) ∧ RunFits2 (openDB {} false true {}) ops ∧ SizeOK db ∧ db.pending.isEmpty = false ∧
+    (∀ op ∈ ops, OpOK2 false op) ∧ RunFits2 (openDB {} false true {}) ops ∧ SizeOK db ∧ db.pending.isEmpty = false ∧
     (syncEffs db).length = 5 := by
   refine ⟨?_, ?_, ?_, ?_, ?_⟩
   · intro op hop
@@ -314,7 +316,7 @@ example :
     defrag() — the last synced values — or the complete in-memory content. Never a mixture, never a value that
     was not written. -/
 theorem qdb_durable_defrag_partial (load : Bool) (opts : Opts) (ops : List Op)
-    (ok : ∀ op ∈ ops, OpOK2 eg op) (fits : RunFits2 (openDB {} false load opts) ops)
+    (ok : ∀ op ∈ ops, OpOK2 false op) (fits : RunFits2 (openDB {} false load opts) ops)
     (hsz : SizeOK (run (openDB {} false load opts) ops))
     (hseq : (run (openDB {} false load opts) ops).dataSeq + 1 < 2^32)
     (hsmall : 16 + 24 * (run (openDB {} false load opts) ops).index.length ≤ bufSize)
@@ -327,17 +329,23 @@ theorem qdb_durable_defrag_partial (load : Bool) (opts : Opts) (ops : List Op)
        (∀ k, (ilookup k (openDB (db.fs.applyAll ((es.map (·.2)).take n)) vol' true opts').index).map valOf =
              vrun (fun _ => none) ops k)) := by
   intro db
-  obtain ⟨h3, hv⟩ := run_inv3' ops _ (fresh_inv3 load opts) ok fits
+  obtain ⟨h3, hv⟩ := run_inv3' ops _ (fresh_inv3 (eg := false) load opts) (ok2_fresh load opts ops ok) fits
   have hv0 : vals (openDB {} false load opts) = fun _ => none := by
     funext k; cases load <;> rfl
   rw [hv0] at hv
   have hready : DefragReady db := defragReady_of_inv3 db h3 hsz hseq (by
     rw [snapBytes_length, layout_length]; exact hsmall)
   obtain ⟨es, he, hall⟩ := defrag_prefix db hready
-  obtain ⟨_, hold⟩ := open_readable db.fs hready.readable vol' opts'
+  have hdbe : db.eager = false :=
+    (run_eager2 ops _ (fresh_inv3 (eg := false) load opts) (ok2_fresh load opts ops ok) fits).trans (fresh_eager load opts)
+  have hrd := hready.readable
+  rw [hdbe] at hrd
+  obtain ⟨_, hold⟩ := open_readable db.fs hrd vol' opts'
   refine ⟨es, he, fun n => ?_⟩
   obtain ⟨hR, hV⟩ := hall n
-  obtain ⟨o1, o2⟩ := open_readable _ hR.readable vol' opts'
+  have hRr := hR.readable
+  rw [hdbe] at hRr
+  obtain ⟨o1, o2⟩ := open_readable _ hRr vol' opts'
   refine ⟨o1, ?_⟩
   rcases hV with hV | hV
   · exact Or.inl (fun k => by rw [o2 k, hV k, ← hold k])
@@ -368,7 +376,7 @@ theorem qdb_durable_defrag_partial (load : Bool) (opts : Opts) (ops : List Op)
     `loadlog` discards the log (empty log left between os.Create and the header write; previous version's log left
     by a crash in defrag). -/
 theorem qdb_durable_partial (load : Bool) (opts : Opts) (H : List HItem)
-    (ok : ∀ i ∈ H, HOK eg i) (fits : HFits (openDB {} false load opts) H) :
+    (ok : ∀ i ∈ H, HOK false i) (fits : HFits (openDB {} false load opts) H) :
     let db := hrun (openDB {} false load opts) H
     db.failed = none ∧
     (∀ k, (Qdb.get db k).2 = vals db k) ∧
@@ -376,7 +384,7 @@ theorem qdb_durable_partial (load : Bool) (opts : Opts) (H : List HItem)
     DurOK false (fun _ => none) (fun _ => none) H (vals db) (diskValue db.fs) ∧
     (∀ k v, (vals db k = some v ∨ diskValue db.fs k = some v) → ∃ i ∈ H, writes (itemOp i) k v) := by
   intro db
-  obtain ⟨h3, hd⟩ := hrun_dur H _ (Or.inl (fresh_inv3 load opts)) ok fits
+  obtain ⟨h3, hd⟩ := hrun_dur H _ (Or.inl (fresh_inv3 (eg := false) load opts)) (hok_fresh load opts H ok) fits
   have hv0 : vals (openDB {} false load opts) = fun _ => none := by
     funext k; cases load <;> rfl
   have hd0 : diskValue (openDB {} false load opts).fs = fun _ => none := by
@@ -400,7 +408,7 @@ example :
     let H := [HItem.op (.put 1 [1, 2]), .op .sync, .op (.put 1 [9]), .crash .sync 2 [1] false {}, .op (.put 2 [4]),
               .crash (.defrag true) 4 [] true { maxPending := 0 }, .op (.reopen true true {}), .op (.put 3 [7]),
               .op (.reopen false true {}), .op (.del 1), .crash (.reopen false true {}) 4 [0, 1] false {}]
-    (∀ i ∈ H, HOK eg i) ∧ HFits (openDB {} false true {}) H := by
+    (∀ i ∈ H, HOK false i) ∧ HFits (openDB {} false true {}) H := by
   refine ⟨?_, ?_⟩
   · intro i hi
     simp only [List.mem_cons, List.not_mem_nil, or_false] at hi
@@ -414,13 +422,16 @@ example :
     map's — and it shows every entry whose browsing flag in memory does not say NO_BROWSE. (Which flags a record
     carries after a reopen is decided by what was persisted with it: the flags at its last sync or defrag.) -/
 theorem browse_after_history_partial (load : Bool) (opts : Opts) (H : List HItem)
-    (ok : ∀ i ∈ H, HOK eg i) (fits : HFits (openDB {} false load opts) H) (w : List (Key × Nat)) (hw : WalkOK eg w) :
+    (ok : ∀ i ∈ H, HOK false i) (fits : HFits (openDB {} false load opts) H) (w : List (Key × Nat)) (hw : WalkOK false w) :
     let db := hrun (openDB {} false load opts) H
     (∀ kv ∈ (browse db w).2, vals db kv.1 = some kv.2) ∧
     (∀ k v f, ilookup k (absv db) = some (v, f) → hasFlag f NO_BROWSE = false → (k, v) ∈ (browse db w).2) := by
   intro db
-  obtain ⟨h3, _⟩ := hrun_dur H _ (Or.inl (fresh_inv3 load opts)) ok fits
-  have hb : (browse db w).2 = mbrowseOut (absv db) := (browse_cached db w h3.cached hw).2.2
+  obtain ⟨h3, _⟩ := hrun_dur H _ (Or.inl (fresh_inv3 (eg := false) load opts)) (hok_fresh load opts H ok) fits
+  have hdbe : db.eager = false :=
+    (hrun_eager H _ (Or.inl (fresh_inv3 (eg := false) load opts)) (hok_fresh load opts H ok) fits).trans
+      (fresh_eager load opts)
+  have hb : (browse db w).2 = mbrowseOut (absv db) := (browse_cached db w h3.cached (by rw [hdbe]; exact hw)).2.2
   have hnd : (Keys (absv db)).Nodup := by rw [keys_absv]; exact h3.nodup
   rw [hb]
   constructor
@@ -444,10 +455,10 @@ theorem browse_after_history_partial (load : Bool) (opts : Opts) (H : List HItem
     LoadData = FALSE: Close does not fail, the open does not fail and holds no record data in memory, and for EVERY
     key the first Get does not fail and returns exactly the in-memory map's value from before the Close — `loadrec`
     finds the data file and reads the record's bytes. (`lazy_open_get` states the same for every openable directory,
-    in particular for every crash directory, and in volatile mode too; the continuation of a history on a
-    non-volatile store that holds not-loaded records is qdb_lazy_history_partial.) -/
+    in particular for every crash directory, and in volatile mode too; the continuation of a history on a store
+    that holds not-loaded records is qdb_refines_map / qdb_durable.) -/
 theorem lazy_reopen_first_get_partial (load : Bool) (opts : Opts) (H : List HItem)
-    (ok : ∀ i ∈ H, HOK eg i) (fits : HFits (openDB {} false load opts) H)
+    (ok : ∀ i ∈ H, HOK false i) (fits : HFits (openDB {} false load opts) H)
     (hs : SizeOK (hrun (openDB {} false load opts) H)) (hd : DFits (hrun (openDB {} false load opts) H))
     (vol' : Bool) (opts' : Opts) (k : Key) :
     let db := hrun (openDB {} false load opts) H
@@ -456,80 +467,129 @@ theorem lazy_reopen_first_get_partial (load : Bool) (opts : Opts) (H : List HIte
     (Qdb.get (openDB (close db).fs vol' false opts') k).1.failed = none ∧
     (Qdb.get (openDB (close db).fs vol' false opts') k).2 = vals db k := by
   intro db
-  obtain ⟨h3, _⟩ := hrun_dur H _ (Or.inl (fresh_inv3 load opts)) ok fits
+  obtain ⟨h3, _⟩ := hrun_dur H _ (Or.inl (fresh_inv3 (eg := false) load opts)) (hok_fresh load opts H ok) fits
   have c : Closed db := by
     rcases h3 with h | h
     · exact nclose db h hs hd
     · exact vclose db h hs.2 hd
+  have hdbe : db.eager = false :=
+    (hrun_eager H _ (Or.inl (fresh_inv3 (eg := false) load opts)) (hok_fresh load opts H ok) fits).trans
+      (fresh_eager load opts)
   obtain ⟨a, b, d⟩ := lazy_open_get (close db).fs vol' opts' c.ok k
+  rw [hdbe] at a b d
   exact ⟨c.failed, a, b, d.trans (c.vals k)⟩
 
-/-- Lazily loaded records, EVERY history. Extend the sub-language of qdb_durable_partial by Close + NewDBExt with
-    LoadData = FALSE in non-volatile mode (`OpOK4`; still no NO_CACHE flag): records are then read from the data files
-    on first use (`loadrec` in Get, Browse, defrag), and a history may go on — more operations, syncs, automatic and
-    forced defrags, reopens of either kind and mode, crashes and recoveries — while some records are still not in
-    memory. Let `twin H` be the same history in which every NewDBExt loads the data at once, and let the bounds of
-    qdb_durable_partial hold along `twin H`. Then the lazily loading run `a` and the twin run `g` never part:
-    `a` never fails (no "file not found" exit in loadrec, no nil dereference in sync), both are in the SAME directory
-    and have performed the SAME file operations (hence every crash inside the lazily loading run leaves a directory
-    the twin run leaves too), Get of every key does not fail and returns the twin's map value, Browse shows what the
-    twin's Browse shows, Count agrees — and the twin run is a history of qdb_durable_partial, so the durable-map
-    specification holds for what `a` shows and for what the directory of `a` durably holds. -/
-theorem qdb_lazy_history_partial (load : Bool) (opts : Opts) (H : List HItem)
-    (ok : ∀ i ∈ H, OpOK4 eg (itemOp i)) (fits : HFits (openDB {} false load opts) (twin H)) :
+/-- REFINEMENT, the whole operation language (central theorem). A history is any list of: Put / PutExt / Del / Get /
+    Browse / ApplyFlags with ANY 32-bit flags — NO_CACHE included: `freerec` and sync() drop a record's data once it is
+    on disk, `loadrec` reads it back from the data file, `load` skips such records — Defrag(false/true) / Sync / NoSync,
+    Close + NewDBExt in ANY mode (volatile or not) with ANY LoadData and any options (`OpOK5`), and CRASHES after any
+    number of file operations of any of these (inside sync(), defrag() incl. writedatfile()/cleanupold(), Close of either
+    mode, NewDBExt's own clean-up), any number of recovery attempts that die inside NewDBExt, and a completing
+    NewDBExt(any mode, LoadData) — after which the history goes on. Start: NewDBExt(non-volatile, any LoadData) on an
+    empty directory.
+    The statement is relative to the EAGER GHOST `g`: the same model run on the same history (every NewDBExt loading at
+    once: `twin H`) with the ghost field `eager` set, which makes `freerec` / sync() / `load` test a flag bit that no
+    32-bit flag word has — the ghost keeps every record in memory while writing exactly the same bytes (the flags are
+    the same). Bounds, along the ghost run (`HFits`): keys 64-bit, data file < 4 GiB, sequence numbers do not wrap,
+    index snapshot at most the 1 MiB bufio buffer (43 689 records). Then the real store `a` and the ghost never part:
+    `a` never fails (no "file not found" exit in loadrec, no nil dereference in sync(), every NewDBExt on every crash
+    directory succeeds), both are in the SAME directory and have performed the SAME file operations, and
+    Get of every key returns the in-memory map `vals g` (what an in-memory map gives on the same history — the first
+    component of the specification `DurOK`, on which operations act by `vstep`), Browse shows exactly what the ghost's
+    Browse shows (for which browse_after_history_partial / qdb_refines_map_partial speak), Count is the ghost's. -/
+theorem qdb_refines_map (load : Bool) (opts : Opts) (H : List HItem)
+    (ok : ∀ i ∈ H, HOK5 i) (fits : HFits (openDB {} false load opts true) (twin H)) :
     let a := hrun (openDB {} false load opts) H
-    let g := hrun (openDB {} false load opts) (twin H)
+    let g := hrun (openDB {} false load opts true) (twin H)
     a.failed = none ∧ a.fs = g.fs ∧ a.effs = g.effs ∧
     (∀ k, (Qdb.get a k).1.failed = none ∧ (Qdb.get a k).2 = vals g k) ∧
-    (∀ w, WalkOK eg w → (browse a w).2 = (browse g w).2) ∧ count a = count g ∧
-    DurOK false (fun _ => none) (fun _ => none) (twin H) (vals g) (diskValue a.fs) := by
+    (∀ w, (∀ kf ∈ w, kf.2 < 2^32) → (browse a w).2 = (browse g w).2) ∧ count a = count g ∧
+    (∃ ks : List Key, ks.Nodup ∧ (∀ k, k ∈ ks ↔ (vals g k).isSome = true) ∧ count a = ks.length) := by
   intro a g
-  have hT : Twin a g :=
-    twin_run H _ _ (Or.inl ⟨rfl, Or.inl (fresh_inv3 load opts)⟩) ok fits
-  obtain ⟨_, hd⟩ := hrun_dur (twin H) _ (Or.inl (fresh_inv3 load opts)) (hok_twin H ok) fits
-  have hv0 : vals (openDB {} false load opts) = fun _ => none := by
-    funext k; cases load <;> rfl
-  have hd0 : diskValue (openDB {} false load opts).fs = fun _ => none := by
-    funext k; cases load <;> rfl
-  have hm0 : (openDB {} false load opts).volatile = false := by cases load <;> rfl
-  rw [hv0, hd0, hm0] at hd
-  obtain ⟨o1, o2, o3⟩ := hT.observe
-  refine ⟨hT.failed, hT.fs, hT.effs, o1, o2, o3, ?_⟩
-  rw [hT.fs]
-  exact hd
+  have hT0 : Twin (openDB {} false load opts) (openDB {} false load opts true) := by
+    refine Or.inl ⟨?_, fresh_inv3 (eg := true) load opts⟩
+    have e1 : openDB {} false load opts false = { fs := {}, volatile := false, opts := opts, dataSeq := 1, eager := false } := by
+      cases load <;> rfl
+    have e2 : openDB {} false load opts true = { fs := {}, volatile := false, opts := opts, dataSeq := 1, eager := true } := by
+      cases load <;> rfl
+    rw [e1, e2]
+    exact ⟨rfl, trivial, (fun _ _ h _ => by cases h), (fun _ _ h _ => by cases h), rfl⟩
+  have hT : Twin a g := twin_run H _ _ hT0 ok fits
+  obtain ⟨o1, o2, o3, o4, o5, o6⟩ := hT.observe
+  refine ⟨o1, o2, o3, o4, o5, o6, Keys g.index, hT.sinv.nodup, fun k => ?_, by rw [o6]; simp [count, Keys]⟩
+  rw [vals_eq, Option.isSome_map]
+  exact (ilookup_isSome_iff k g.index).symm
 
-/-- non-vacuity of qdb_lazy_history_partial: records written, a lazy reopen (automatic sync at every change from
-    then on), a Get, an overwrite of a not-loaded record, a forced defrag with a not-loaded record, another lazy
-    reopen, a crash inside a Sync while records are not loaded, a lazy reopen after the recovery -/
+/-- DURABILITY, the whole operation language (central theorem; histories, ghost and bounds as in qdb_refines_map, crash
+    model: process kill). The pair (in-memory map `vals g` — what Get of the real store returns, durable map = what a
+    reopen of the REAL store's current directory finds) follows the durable-map specification `DurOK` along the
+    history: operations act on the in-memory map as on a plain map; the durable map stays or becomes the complete
+    in-memory map, and it MUST become it at Close+reopen and, for a non-volatile store, at Sync and Defrag(true); a
+    crash inside any operation — after ANY number of its file operations — leaves a directory that NewDBExt opens
+    without error (also after further crashes inside NewDBExt) and in which ALL keys hold the durable map from before
+    the interrupted operation or ALL keys hold the complete map after it; the store continues from there. Hence no
+    value is ever invented: whatever a key holds at the end, in memory or durably, was written by a Put / PutExt of
+    the history. -/
+theorem qdb_durable (load : Bool) (opts : Opts) (H : List HItem)
+    (ok : ∀ i ∈ H, HOK5 i) (fits : HFits (openDB {} false load opts true) (twin H)) :
+    let a := hrun (openDB {} false load opts) H
+    let g := hrun (openDB {} false load opts true) (twin H)
+    a.failed = none ∧
+    DurOK false (fun _ => none) (fun _ => none) (twin H) (vals g) (diskValue a.fs) ∧
+    (∀ k v, (vals g k = some v ∨ diskValue a.fs k = some v) → ∃ i ∈ twin H, writes (itemOp i) k v) := by
+  intro a g
+  obtain ⟨o1, o2, _⟩ := qdb_refines_map load opts H ok fits
+  have hok : ∀ i ∈ twin H, HOK (openDB {} false load opts true).eager i := by
+    rw [openDB_eager]; exact hok_twin H ok
+  obtain ⟨_, hd⟩ := hrun_dur (twin H) _ (Or.inl (fresh_inv3 (eg := true) load opts)) hok fits
+  have hv0 : vals (openDB {} false load opts true) = fun _ => none := by
+    funext k; cases load <;> rfl
+  have hd0 : diskValue (openDB {} false load opts true).fs = fun _ => none := by
+    funext k; cases load <;> rfl
+  have hm0 : (openDB {} false load opts true).volatile = false := by cases load <;> rfl
+  rw [hv0, hd0, hm0] at hd
+  have hfs : a.fs = g.fs := o2
+  refine ⟨o1, by rw [hfs]; exact hd, fun k v hv => ?_⟩
+  rw [hfs] at hv
+  rcases durOK_origin (twin H) _ _ _ _ _ hd k v hv with r | r | r
+  · cases r
+  · cases r
+  · exact r
+
+/-- non-vacuity of qdb_refines_map / qdb_durable: a NO_CACHE record, a sync that drops it, a Get that reads it back,
+    a lazy reopen (automatic sync at every change from then on), ApplyFlags NO_CACHE, a Browse whose walk function asks
+    for NO_CACHE, an overwrite of a not-loaded record, a forced defrag, a VOLATILE session with lazy loading, a
+    crash inside a Sync while records are not in memory -/
 example :
-    let H := [HItem.op (.put 1 [1, 2]), .op (.put 2 [5]), .op (.reopen false false { maxPending := 0 }),
-              .op (.get 1), .op (.put 2 [6, 6]), .op (.defrag true), .op (.reopen false false {}),
-              .op (.put 1 [8]), .crash .sync 1 [] false {}, .op (.reopen false false {})]
-    (∀ i ∈ H, OpOK4 eg (itemOp i)) ∧ HFits (openDB {} false true {}) (twin H) := by
+    let H := [HItem.op (.putExt 1 [1, 2] NO_CACHE), .op (.put 2 [5]), .op .sync, .op (.get 1),
+              .op (.reopen false false { maxPending := 0 }), .op (.applyFlags 2 NO_CACHE), .op (.browse [(1, NO_CACHE)]),
+              .op (.put 2 [6, 6]), .op (.defrag true), .op (.reopen true false {}), .op (.put 1 [8]),
+              .op (.reopen false true {}), .crash .sync 1 [] false {}]
+    (∀ i ∈ H, HOK5 i) ∧ HFits (openDB {} false true {} true) (twin H) := by
   refine ⟨?_, ?_⟩
   · intro i hi
     simp only [List.mem_cons, List.not_mem_nil, or_false] at hi
-    rcases hi with rfl | rfl | rfl | rfl | rfl | rfl | rfl | rfl | rfl | rfl <;>
-      simp [itemOp, OpOK4, OpOK]
-  · show HFits (openDB {} false true {})
-      [HItem.op (.put 1 [1, 2]), .op (.put 2 [5]), .op (.reopen false true { maxPending := 0 }),
-       .op (.get 1), .op (.put 2 [6, 6]), .op (.defrag true), .op (.reopen false true {}),
-       .op (.put 1 [8]), .crash .sync 1 [] false {}, .op (.reopen false true {})]
+    rcases hi with rfl | rfl | rfl | rfl | rfl | rfl | rfl | rfl | rfl | rfl | rfl | rfl | rfl <;>
+      simp [HOK5, itemOp, OpOK5, NO_CACHE]
+  · show HFits (openDB {} false true {} true)
+      [HItem.op (.putExt 1 [1, 2] NO_CACHE), .op (.put 2 [5]), .op .sync, .op (.get 1),
+       .op (.reopen false true { maxPending := 0 }), .op (.applyFlags 2 NO_CACHE), .op (.browse [(1, NO_CACHE)]),
+       .op (.put 2 [6, 6]), .op (.defrag true), .op (.reopen true true {}), .op (.put 1 [8]),
+       .op (.reopen false true {}), .crash .sync 1 [] false {}]
     simp only [HFits, OpFits3, OpFits, SizeOK, dFits_iff]
     decide
 
--- OPEN: qdb_durable in full — what is still missing for the statement of DESIGN §6: (i) index snapshots larger than
---   the 1 MiB bufio buffer, i.e. more than 43 689 records (`DFits.small`; a chunk boundary could in principle fall so
---   that a prefix of the snapshot ends in bytes that look like the FFFFFFFF-seq-FINI trailer — the data file has no
---   such bound: defrag's data writer is analysed for any number of chunks); (ii) the NO_CACHE flag; LoadData = false
---   in VOLATILE mode (non-volatile: qdb_lazy_history_partial); (iii) recovery attempts that themselves die
---   (`recrash`) are modelled as non-volatile NewDBExt calls (the file operations of NewDBExt do not depend on the
---   mode); (iv) torn / reordered writes and power loss (the crash model is process kill, see the manifest). Proved since
---   the first pass: histories that continue after a crash, crashes inside NewDBExt, volatile mode, lazy loading.
---   (i)-(iii) are covered by the harness only.
+-- OPEN (outside the statements above, see the manifest): (i) index snapshots larger than the 1 MiB bufio buffer, i.e.
+--   more than 43 689 records (`DFits.small` — a stated bound of qdb_refines_map / qdb_durable; a chunk boundary could
+--   in principle fall so that a prefix of the snapshot ends in bytes that look like the FFFFFFFF-seq-FINI trailer; the
+--   data file has no such bound: defrag's data writer is analysed for any number of chunks); (ii) which browsing flags
+--   a record carries after a reopen is specified as "what was persisted with it" (the ghost's Browse), not by an
+--   independent map-level rule; (iii) BR_ABORT and the WalkFunction of NewDBExt are outside the model; recovery
+--   attempts that themselves die (`recrash`) are modelled as non-volatile NewDBExt calls (the file operations of
+--   NewDBExt do not depend on the mode); (iv) torn / reordered writes and power loss (the crash model is process kill).
 
 /-- non-vacuity of reopen_after_close_identity_partial: a two-record store -/
-example : IndexWF eg [(1, (newRec [1, 2, 3] 0)), (2 ^ 64 - 1, (newRec [] NO_BROWSE))] := by
+example : IndexWF false [(1, (newRec [1, 2, 3] 0)), (2 ^ 64 - 1, (newRec [] NO_BROWSE))] := by
   refine ⟨?_, ?_, by decide, by decide⟩
   · intro kr h
     simp only [List.mem_cons, List.not_mem_nil, or_false] at h
